@@ -41,10 +41,17 @@ const (
 	c20One
 	c20Many
 	c20Opaque
+	c20Enum // a named integer type of package ast (BinaryOp, SetFunction, boolBinaryOp): serialised with the strings, one byte
 )
+
+var c20AstPkg = reflect.TypeOf(ast.NotExprNode{}).PkgPath()
 
 func c20Classify(ft reflect.Type) c20Class {
 	switch ft.Kind() {
+	case reflect.Int, reflect.Int32, reflect.Int64, reflect.Uint8:
+		if ft.PkgPath() == c20AstPkg && ft.Name() != "" {
+			return c20Enum
+		}
 	case reflect.String:
 		return c20Str
 	case reflect.Interface:
@@ -149,6 +156,11 @@ func (w *c20Walker) walk(v reflect.Value) {
 			w.emit("Z")
 			return
 		}
+		// a typed nil pointer stored in an interface: not a nil interface
+		if e := v.Elem(); e.Kind() == reflect.Ptr && e.IsNil() {
+			w.emit("T", e.Type().Elem().Name())
+			return
+		}
 		w.walk(v.Elem())
 	case reflect.Ptr:
 		if v.IsNil() {
@@ -189,55 +201,35 @@ func (w *c20Walker) walkStruct(sv reflect.Value) {
 	}
 	fields := c20Fields(t)
 	nstr, nkids := 0, 0
+	var childPtrs []uintptr
 	for _, f := range fields {
 		switch f.class {
-		case c20Str:
+		case c20Str, c20Enum:
 			nstr++
 		case c20One:
 			nkids++
+			childPtrs = append(childPtrs, c20PtrOf(sv.FieldByIndex(f.index)))
 		case c20Many:
 			nkids += sv.FieldByIndex(f.index).Len()
 		}
 	}
-	w.emit("N", t.Name(), strconv.Itoa(nstr))
-	for _, f := range fields {
-		if f.class == c20Str {
-			s := sv.FieldByIndex(f.index).String()
-			w.syms = append(w.syms, s)
-			w.emit(f.name, c20Name(s))
-		}
-	}
-	w.emit(strconv.Itoa(nkids))
-	var childPtrs []uintptr
-	for _, f := range fields {
-		fv := sv.FieldByIndex(f.index)
-		switch f.class {
-		case c20One:
-			childPtrs = append(childPtrs, c20PtrOf(fv))
-			w.emit(f.name)
-			w.walk(fv)
-		case c20Many:
-			for i := 0; i < fv.Len(); i++ {
-				w.emit(f.name)
-				w.walk(fv.Index(i))
-			}
-		}
-	}
-	// a field of non-node interface type may only alias one of the node-valued fields
+	// a field of non-node interface type may only alias one of the node-valued fields; a node it holds that is
+	// NOT one of them is serialised as an extra child under the field's name, so that the specification counts what
+	// it references (the model does not know such a child: the case then fails the correspondence as well)
+	var hidden []c20Field
 	for _, f := range fields {
 		if f.class != c20Opaque {
 			continue
 		}
 		fv := sv.FieldByIndex(f.index)
 		if fv.Kind() != reflect.Interface || fv.IsNil() {
-			if fv.Kind() != reflect.Interface && fv.Len() > 0 {
+			if fv.Kind() != reflect.Interface && (fv.Kind() == reflect.Slice || fv.Kind() == reflect.Map || fv.Kind() == reflect.Array) && fv.Len() > 0 {
 				w.err = "hidden-node " + t.Name() + "." + f.name
 			}
 			continue
 		}
 		dyn := fv.Elem()
-		isNode := dyn.Type().Implements(c20NodeIface)
-		if !isNode {
+		if !dyn.Type().Implements(c20NodeIface) {
 			continue
 		}
 		p := c20PtrOf(dyn)
@@ -248,9 +240,45 @@ func (w *c20Walker) walkStruct(sv reflect.Value) {
 			}
 		}
 		if !aliased {
-			w.err = "hidden-node " + t.Name() + "." + f.name
+			hidden = append(hidden, f)
 		}
 	}
+	w.emit("N", t.Name(), strconv.Itoa(nstr))
+	for _, f := range fields {
+		if f.class == c20Str {
+			s := sv.FieldByIndex(f.index).String()
+			w.syms = append(w.syms, s)
+			w.emit(f.name, c20Name(s))
+		}
+		if f.class == c20Enum {
+			w.emit(f.name, c20Name(string([]byte{byte(c20IntOf(sv.FieldByIndex(f.index)))})))
+		}
+	}
+	w.emit(strconv.Itoa(nkids + len(hidden)))
+	for _, f := range fields {
+		fv := sv.FieldByIndex(f.index)
+		switch f.class {
+		case c20One:
+			w.emit(f.name)
+			w.walk(fv)
+		case c20Many:
+			for i := 0; i < fv.Len(); i++ {
+				w.emit(f.name)
+				w.walk(fv.Index(i))
+			}
+		}
+	}
+	for _, f := range hidden {
+		w.emit(f.name)
+		w.walk(sv.FieldByIndex(f.index))
+	}
+}
+
+func c20IntOf(v reflect.Value) int64 {
+	if v.Kind() == reflect.Uint8 {
+		return int64(v.Uint())
+	}
+	return v.Int()
 }
 
 // c20WalkNode serialises a real tree
@@ -258,8 +286,10 @@ func c20WalkNode(n interface{}, kinds map[string]bool) (toks []string, strs []st
 	w := &c20Walker{kinds: kinds}
 	if n == nil {
 		w.emit("Z")
+	} else if v := reflect.ValueOf(n); v.Kind() == reflect.Ptr && v.IsNil() {
+		w.emit("T", v.Type().Elem().Name()) // n is an interface value holding a typed nil pointer
 	} else {
-		w.walk(reflect.ValueOf(n))
+		w.walk(v)
 	}
 	return w.toks, w.syms, w.err
 }
@@ -359,6 +389,17 @@ func c20Build(toks []string, pos *int) (reflect.Value, error) {
 	if t == "Z" {
 		return reflect.Value{}, nil
 	}
+	if t == "T" { // typed nil pointer (only meaningful in an interface-typed slot)
+		kind, err := next()
+		if err != nil {
+			return reflect.Value{}, err
+		}
+		typ, ok := c20Registry[kind]
+		if !ok {
+			return reflect.Value{}, fmt.Errorf("unbuildable-kind %s", kind)
+		}
+		return reflect.Zero(reflect.PointerTo(typ)), nil
+	}
 	if t != "N" {
 		return reflect.Value{}, fmt.Errorf("bad token %q", t)
 	}
@@ -394,6 +435,15 @@ func c20Build(toks []string, pos *int) (reflect.Value, error) {
 			return reflect.Value{}, err
 		}
 		f, ok := c20FieldByName(typ, fn)
+		if ok && f.class == c20Enum && len(val) == 1 {
+			fv := c20Settable(sv.FieldByIndex(f.index))
+			if fv.Kind() == reflect.Uint8 {
+				fv.SetUint(uint64(val[0]))
+			} else {
+				fv.SetInt(int64(val[0]))
+			}
+			continue
+		}
 		if !ok || f.class != c20Str {
 			return reflect.Value{}, fmt.Errorf("no-string-field %s.%s", kind, fn)
 		}
@@ -430,6 +480,9 @@ func c20Build(toks []string, pos *int) (reflect.Value, error) {
 			cv = reflect.Zero(et)
 		} else {
 			cv = child
+			if cv.Kind() == reflect.Ptr && cv.IsNil() && et.Kind() != reflect.Interface {
+				return reflect.Value{}, fmt.Errorf("typed-nil-outside-interface %s.%s", kind, label)
+			}
 			if et.Kind() == reflect.Struct && cv.Kind() == reflect.Ptr {
 				cv = cv.Elem()
 			}
@@ -447,6 +500,21 @@ func c20Build(toks []string, pos *int) (reflect.Value, error) {
 		return sv, nil
 	}
 	return pv, nil
+}
+
+// kinds K such that a nil *K can be stored in an interface-typed slot of static type et
+func c20TypedNilCandidates(et reflect.Type) []string {
+	var res []string
+	if et.Kind() != reflect.Interface {
+		return nil
+	}
+	for k, typ := range c20Registry {
+		if reflect.PointerTo(typ).AssignableTo(et) {
+			res = append(res, k)
+		}
+	}
+	sort.Strings(res)
+	return res
 }
 
 // which registered kinds may sit in a slot of static type `et`
